@@ -15,14 +15,14 @@ Qed.
 
 Lemma parent_of_get : forall r i o, get r i = Some o -> parent_of r i = o_parent o.
 Proof. intros r i o H. unfold parent_of. now rewrite H. Qed.
-Lemma priv_of_get : forall r i o, get r i = Some o -> priv_of r i = o_priv o.
+Lemma priv_of_get : forall r i o, get r i = Some o -> priv_of r i = eff_priv o.
 Proof. intros r i o H. unfold priv_of. now rewrite H. Qed.
 
 Lemma visible_f_total : forall r, wf r -> forall fuel i, i < fuel -> valid r i -> exists b, visible_f fuel r i = Some b.
 Proof.
   intros r Hwf fuel. induction fuel as [|f IH]; intros i Hlt Hv; [lia|].
   destruct (valid_get r i Hv) as [o Ho]. cbn [visible_f]. rewrite Ho.
-  destruct (is_hidden (o_priv o)); [eauto|].
+  destruct (is_hidden (eff_priv o)); [eauto|].
   destruct (o_parent o) as [p|] eqn:Hp; [|eauto].
   assert (Hpi : p < i) by (apply (wf_parent_lt r Hwf); rewrite (parent_of_get r i o Ho); exact Hp).
   apply IH; [lia|]. unfold valid in *. lia.
@@ -35,7 +35,7 @@ Lemma visible_f_spec : forall r fuel i b, visible_f fuel r i = Some b -> (b = tr
 Proof.
   intros r fuel. induction fuel as [|f IH]; intros i b H; [discriminate|].
   cbn [visible_f] in H. destruct (get r i) as [o|] eqn:Ho; [|discriminate].
-  destruct (is_hidden (o_priv o)) eqn:Hh.
+  destruct (is_hidden (eff_priv o)) eqn:Hh.
   - inversion H; subst b. split; [discriminate|]. intros Hn. exfalso.
     apply (Hn i (aos_self r i)). rewrite (priv_of_get r i o Ho). now apply is_hidden_spec.
   - assert (Hnh : priv_of r i <> HIDDEN).
@@ -386,7 +386,7 @@ Proof. intros r o H. unfold is_private. rewrite H. auto. Qed.
 Definition entry_inv (quote : text -> text) (tbl : table) (r : registry) (e : entry) : Prop :=
   (wf r -> table_ok tbl = true -> listing_prod (e_prod e) = true -> visible r (e_obj e) = true) /\
   (wf r -> table_ok tbl = true ->
-     e_ctx e = e_page e \/ own_page r (e_obj e) = true \/ raw_prod (e_prod e) = true) /\
+     e_ctx e = e_page e \/ own_page r (e_obj e) = true \/ raw_prod (e_prod e) = true \/ e_ctx e = [] \/ e_prod e = P_xref) /\
   (markers_ok tbl = true -> marked_prod (e_prod e) = true -> priv_of r (e_obj e) = PRIVATE -> e_private e = true) /\
   (wf r -> table_ok tbl = true -> contents_prod (e_prod e) = true -> reachable r (e_obj e)).
 
@@ -436,29 +436,41 @@ Qed.
 Lemma reachable_child : forall p c, reachable r p -> In c (contents_of r p) -> reachable r c.
 Proof. intros p c [root [Hr Hd]] Hc. exists root. split; [exact Hr|]. exact (desc_trans_child r root p c Hd Hc). Qed.
 
+Lemma reachable_parent : forall c q, wf r -> reachable r c -> parent_of r c = Some q -> reachable r q.
+Proof.
+  intros c q Hwf [root [Hr Hd]] Hp. destruct (desc_last r root c Hd) as [E|[p' [Hd' Hc]]].
+  - subst root. destruct (wf_roots r Hwf c Hr) as [_ [Hn _]]. congruence.
+  - destruct (wf_contents r Hwf p' c Hc) as [_ Hp']. rewrite Hp in Hp'. inversion Hp'; subst p'. exists root. auto.
+Qed.
+
 Lemma obj_content_inv : forall fuel depth level pg s e,
+  (wf r -> table_ok tbl = true -> reachable r s) ->
   In e (obj_content fuel tbl r depth level pg pg s) -> entry_inv quote tbl r e.
 Proof.
-  induction fuel as [|f IH]; intros depth level pg s e Hin; [contradiction|].
+  induction fuel as [|f IH]; intros depth level pg s e Hrs Hin; [contradiction|].
   cbn [obj_content] in Hin. apply in_app_or in Hin.
-  assert (Hitem : forall c, (table_ok tbl = true -> visible r c = true) ->
-            entry_inv quote tbl r (mk pg P_sidebar_item pg (t_sidebar_private tbl && is_private r c) c)).
-  { intros c Hv. leaf. split; [|split; [|split]]; [| | |nocontents].
-    - intros _ Ht _. now apply Hv.
-    - intros _ _. now left.
-    - intros Hm _ Hp. destruct (markers_ok_facts tbl Hm) as [_ [H2 _]].
-      destruct (private_is_private r c Hp) as [H _]. now rewrite H2, H. }
   destruct Hin as [Hin|Hin].
-  - apply in_flat_map in Hin. destruct Hin as [c [Hc Hin]]. apply filter_In in Hc. destruct Hc as [_ Hk].
+  - apply in_flat_map in Hin. destruct Hin as [c [Hc Hin]]. apply filter_In in Hc. destruct Hc as [Hcs Hk].
+    assert (Hrc : wf r -> table_ok tbl = true -> reachable r c).
+    { intros Hwf Ht. exact (reachable_child s c (Hrs Hwf Ht) Hcs). }
     destruct Hin as [E|Hin].
-    + subst e. apply Hitem. intros Ht. destruct (table_ok_facts tbl Ht) as [_ [_ [_ [_ [_ [_ [_ [_ [H9 _]]]]]]]]].
-      exact (keep_visible _ r c H9 Hk).
-    + destruct (own_page r c && Nat.ltb (S level) depth); [|contradiction]. exact (IH _ _ _ _ _ Hin).
+    + subst e. leaf. split; [|split; [|split]].
+      * intros _ Ht _. destruct (table_ok_facts tbl Ht) as [_ [_ [_ [_ [_ [_ [_ [_ [H9 _]]]]]]]]].
+        exact (keep_visible _ r c H9 Hk).
+      * intros _ _. now left.
+      * intros Hm _ Hp. destruct (markers_ok_facts tbl Hm) as [_ [H2 _]].
+        destruct (private_is_private r c Hp) as [H _]. now rewrite H2, H.
+      * intros Hwf Ht _. exact (Hrc Hwf Ht).
+    + destruct (own_page r c && Nat.ltb (S level) depth); [|contradiction]. exact (IH _ _ _ _ _ Hrc Hin).
   - destruct (is_class_kind (kind_of r s)); [|contradiction].
     apply in_map_iff in Hin. destruct Hin as [c [E Hc]]. subst e. apply filter_In in Hc. destruct Hc as [_ Hk].
     apply andb_prop in Hk. destruct Hk as [_ Hk].
-    apply Hitem. intros Ht. destruct (table_ok_facts tbl Ht) as [_ [_ [_ [_ [_ [_ [_ [H8 _]]]]]]]].
-    exact (keep_visible _ r c H8 Hk).
+    leaf. split; [|split; [|split]]; [| | |nocontents].
+    + intros _ Ht _. destruct (table_ok_facts tbl Ht) as [_ [_ [_ [_ [_ [_ [_ [H8 _]]]]]]]].
+      exact (keep_visible _ r c H8 Hk).
+    + intros _ _. now left.
+    + intros Hm _ Hp. destruct (markers_ok_facts tbl Hm) as [_ [H2 _]].
+      destruct (private_is_private r c Hp) as [H _]. now rewrite H2, H.
 Qed.
 
 Lemma methods_visible : forall p c, table_ok tbl = true -> In c (methods_of tbl r p) -> visible r c = true.
@@ -491,7 +503,13 @@ Proof.
         exact (wf_parent_own r Hwf p q Hq).
       * destruct (module_of r p) as [q|] eqn:Hq; [|contradiction]. destruct Hs as [E|[]]. subst s.
         exact (wf_module_own r Hwf p q Hq).
-    + apply in_flat_map in Hin. destruct Hin as [s [_ Hin]]. exact (obj_content_inv _ _ _ _ _ _ Hin).
+    + apply in_flat_map in Hin. destruct Hin as [s [Hs Hin]]. apply (obj_content_inv (S depth) depth 0 (url quote r p) s e); [|exact Hin].
+      intros Hwf Ht. destruct Hs as [E|Hs]; [subst s; exact (Hreachp Hwf Ht)|].
+      destruct (is_module_kind (kind_of r p)).
+      * destruct (parent_of r p) as [q|] eqn:Hq; [|contradiction]. destruct Hs as [E|[]]. subst s.
+        exact (reachable_parent p q Hwf (Hreachp Hwf Ht) Hq).
+      * destruct (module_of r p) as [q|] eqn:Hq; [|contradiction]. destruct Hs as [E|[]]. subst s.
+        exact (wf_module_reach r Hwf p q Hq).
   - (* main table *) apply in_map_iff in Hin. destruct Hin as [c [E Hc]]. subst e. apply inv_row; [eauto|].
     intros Hwf Ht _. apply (reachable_child p c); [exact (Hreachp Hwf Ht)|].
     unfold rows_of in Hc. apply filter_In in Hc. destruct Hc as [Hc _]. unfold children_of in Hc.
@@ -506,7 +524,7 @@ Proof.
     apply in_map_iff in Hin. destruct Hin as [c [E Hc]]. subst e. now apply inv_plain.
   - (* member details *) apply in_map_iff in Hin. destruct Hin as [c [E Hc]]. subst e. leaf. split; [|split; [|split]]; [| | |nocontents].
     + intros _ Ht _. exact (methods_visible p c Ht Hc).
-    + intros _ _. right. right. reflexivity.
+    + intros _ _. right. right. left. reflexivity.
     + intros Hm _ Hpr. destruct (markers_ok_facts tbl Hm) as [H1 [_ [_ [_ [_ H6]]]]].
       destruct (private_is_private r c Hpr) as [_ H]. unfold css_private. now rewrite H1, H6, H.
   - (* class extras *) destruct (is_class_kind (kind_of r p)); [|contradiction].
@@ -528,7 +546,7 @@ Qed.
 
 Lemma module_summary_inv : forall fuel m e,
   (table_ok tbl = true -> visible r m = true) -> reachable r m ->
-  In e (module_summary fuel tbl r m) -> entry_inv quote tbl r e.
+  In e (module_summary quote fuel tbl r m) -> entry_inv quote tbl r e.
 Proof.
   induction fuel as [|f IH]; intros m e Hm Hreach Hin; [contradiction|].
   cbn [module_summary] in Hin. destruct Hin as [E|Hin].
@@ -539,10 +557,24 @@ Proof.
       destruct (private_is_private r m Hp) as [H _]. now rewrite H3, H.
     + intros _ _ _. exact Hreach.
   - destruct (kind_of r m); try contradiction.
-    apply in_flat_map in Hin. destruct Hin as [c [Hc Hin]]. apply filter_In in Hc. destruct Hc as [Hcm Hk].
-    apply (IH c e); [|exact (reachable_child m c Hreach Hcm)|exact Hin].
-    intros Ht. destruct (table_ok_facts tbl Ht) as [_ [_ [_ [_ [_ [_ [_ [_ [_ [H10 _]]]]]]]]]].
-    apply andb_prop in Hk. exact (keep_visible _ r c H10 (proj2 Hk)).
+    assert (Hsub : forall c, In c (submodules_of tbl r m) ->
+              (table_ok tbl = true -> visible r c = true) /\ reachable r c /\ own_page r c = true).
+    { intros c Hc. unfold submodules_of in Hc. apply filter_In in Hc. destruct Hc as [Hcm Hk].
+      apply andb_prop in Hk. destruct Hk as [Hmk Hk]. split; [|split].
+      - intros Ht. destruct (table_ok_facts tbl Ht) as [_ [_ [_ [_ [_ [_ [_ [_ [_ [H10 _]]]]]]]]]].
+        exact (keep_visible _ r c H10 Hk).
+      - exact (reachable_child m c Hreach Hcm).
+      - unfold own_page. destruct (kind_of r c); try discriminate; reflexivity. }
+    destruct (compact_listing tbl r (submodules_of tbl r m)).
+    + apply in_map_iff in Hin. destruct Hin as [c [E Hc]]. subst e. destruct (Hsub c Hc) as [Hv [Hr Ho]].
+      leaf. split; [|split; [|split]].
+      * intros _ Ht _. now apply Hv.
+      * intros _ _. right. now left.
+      * intros Hmk _ Hp. destruct (markers_ok_facts tbl Hmk) as [_ [_ [H3 _]]].
+        destruct (private_is_private r c Hp) as [H _]. now rewrite H3, H.
+      * intros _ _ _. exact Hr.
+    + apply in_flat_map in Hin. destruct Hin as [c [Hc Hin]]. destruct (Hsub c Hc) as [Hv [Hr _]].
+      exact (IH c e Hv Hr Hin).
 Qed.
 
 Lemma subclasses_from_visible : forall fuel c x, table_ok tbl = true -> visible r c = true ->
@@ -572,7 +604,7 @@ Lemma inv_raw : forall pg prod priv o, raw_prod prod = true ->
 Proof.
   intros pg prod priv o Hraw Hv Hm Hc. leaf. split; [|split; [|split]].
   - intros _ Ht _. now apply Hv.
-  - intros _ _. right. right. exact Hraw.
+  - intros _ _. right. right. left. exact Hraw.
   - exact Hm.
   - intros _ _. exact Hc.
 Qed.
@@ -585,7 +617,7 @@ Proof.
   apply in_flat_map in Hin. destruct Hin as [c [Hc Hin]]. apply desc_step with c; [exact Hc|exact (IH c x Hin)].
 Qed.
 
-Lemma summary_entries_inv : forall e, In e (summary_entries tbl r) -> entry_inv quote tbl r e.
+Lemma summary_entries_inv : forall e, In e (summary_entries quote tbl r) -> entry_inv quote tbl r e.
 Proof.
   intros e Hin. unfold summary_entries in Hin.
   repeat (apply in_app_or in Hin; destruct Hin as [Hin|Hin]).
@@ -617,7 +649,7 @@ Proof.
   - (* all-documents *) apply in_map_iff in Hin. destruct Hin as [o [E Ho]]. subst e. leaf. split; [|split; [|split]]; [| | |nocontents].
     + intros _ Ht _. destruct (table_ok_facts tbl Ht) as [_ [_ [_ [_ [_ [_ [_ [_ [_ [_ [_ [_ [_ [_ [H15 _]]]]]]]]]]]]]]].
       apply filter_In in Ho. exact (keep_visible _ r o H15 (proj2 Ho)).
-    + intros _ _. right. right. reflexivity.
+    + intros _ _. right. right. left. reflexivity.
     + intros Hm _ Hp. destruct (markers_ok_facts tbl Hm) as [_ [_ [_ [H4 _]]]].
       destruct (private_is_private r o Hp) as [_ H]. now rewrite H4, H.
   - (* search corpus *) apply in_map_iff in Hin. destruct Hin as [o [E Ho]]. subst e.
@@ -631,11 +663,44 @@ Proof.
     + intros _. exists root. split; [exact Hroot|exact (inventory_desc _ root o Ho)].
 Qed.
 
+(* cross references: not listings; the context of a docstring link is the page of the docstring's source *)
+Lemma inv_xref : forall pg ctx o, entry_inv quote tbl r (mk pg P_xref ctx false o).
+Proof.
+  intros pg ctx o. leaf. split; [|split; [|split]]; [nolisting| |nomarked|nocontents].
+  intros _ _. right. right. right. right. reflexivity.
+Qed.
+Lemma inv_xref_summary : forall pg o, entry_inv quote tbl r (mk pg P_xref_summary [] false o).
+Proof.
+  intros pg o. leaf. split; [|split; [|split]]; [nolisting| |nomarked|nocontents].
+  intros _ _. right. right. right. left. reflexivity.
+Qed.
+
+Lemma xref_entries_inv : forall p e, In e (xref_entries quote tbl r p) -> entry_inv quote tbl r e.
+Proof.
+  intros p e Hin. unfold xref_entries in Hin. apply in_app_or in Hin. destruct Hin as [Hin|Hin];
+    apply in_flat_map in Hin; destruct Hin as [i [_ Hin]]; apply in_map_iff in Hin; destruct Hin as [t [E _]]; subst e.
+  - apply inv_xref.
+  - apply inv_xref_summary.
+Qed.
+
+Lemma summary_xref_entries_inv : forall e, In e (summary_xref_entries quote tbl r) -> entry_inv quote tbl r e.
+Proof.
+  intros e Hin. unfold summary_xref_entries in Hin. apply in_app_or in Hin. destruct Hin as [Hin|Hin];
+    apply in_flat_map in Hin; destruct Hin as [x [_ Hin]].
+  - destruct (text_eqb (e_ctx x) f_moduleIndex); [|contradiction].
+    apply in_map_iff in Hin. destruct Hin as [t [E _]]. subst e. apply inv_xref_summary.
+  - apply in_map_iff in Hin. destruct Hin as [t [E _]]. subst e. apply inv_xref_summary.
+Qed.
+
 Theorem site_entries_inv : forall depth ns e, In e (site_entries quote tbl r depth ns) -> entry_inv quote tbl r e.
 Proof.
   intros depth ns e Hin. unfold site_entries in Hin. apply in_app_or in Hin. destruct Hin as [Hin|Hin].
-  - apply in_flat_map in Hin. destruct Hin as [p [Hp Hin]]. exact (page_entries_inv depth ns p e Hp Hin).
-  - exact (summary_entries_inv e Hin).
+  - apply in_app_or in Hin. destruct Hin as [Hin|Hin].
+    + apply in_flat_map in Hin. destruct Hin as [p [Hp Hin]]. exact (page_entries_inv depth ns p e Hp Hin).
+    + exact (summary_entries_inv e Hin).
+  - apply in_app_or in Hin. destruct Hin as [Hin|Hin].
+    + apply in_flat_map in Hin. destruct Hin as [p [_ Hin]]. exact (xref_entries_inv p e Hin).
+    + exact (summary_xref_entries_inv e Hin).
 Qed.
 
 End Entries.
@@ -703,9 +768,10 @@ Lemma link_live_of_reachable : forall depth ns e h, wf r -> table_ok tbl = true 
   t_taglink_drops_hidden tbl = true -> l_nospace (t_methods tbl) = false -> l_nospace (t_pkg_methods tbl) = false ->
   In e (site_entries quote tbl r depth ns) -> reachable r (e_obj e) ->
   N.eqb (e_prod e) P_hierarchy = false -> N.eqb (e_prod e) P_childlist = false ->
+  (e_prod e = P_xref -> e_ctx e = e_page e \/ own_page r (e_obj e) = true) ->
   link_of quote tbl r e = Some h -> live_at quote tbl r (e_page e) h.
 Proof.
-  intros depth ns e h Hwf Ht Hf Hn1 Hn2 Hin Hreach Hh Hc Hl.
+  intros depth ns e h Hwf Ht Hf Hn1 Hn2 Hin Hreach Hh Hc Hx Hl.
   destruct (table_ok_facts tbl Ht) as [_ [_ [_ [_ [_ [_ [_ [_ [_ [_ [_ [_ [_ [_ [_ [_ [_ [H18 _]]]]]]]]]]]]]]]]]].
   pose proof (no_link_targets_hidden depth ns e h Hwf Ht Hf Hin Hl) as Hv.
   pose proof (visible_valid r _ Hv) as Hval.
@@ -721,12 +787,18 @@ Proof.
   - rewrite (link_of_taglink e Hraw) in Hl.
     destruct (taglink_shortening quote quote_no_hash tbl r _ _ _ Hl) as [Hres _].
     destruct (site_entries_inv quote tbl r depth ns e Hin) as [_ [H2 _]].
-    destruct (H2 Hwf Ht) as [Ec|[Eo|Er]]; [| |congruence].
+    assert (Hctx : e_ctx e = e_page e \/ own_page r (e_obj e) = true \/ e_ctx e = []).
+    { destruct (H2 Hwf Ht) as [Ec|[Eo|[Er|[E0|Ex]]]]; [auto|auto|congruence|auto|].
+      destruct (Hx Ex) as [Ec|Eo]; auto. }
+    destruct Hctx as [Ec|[Eo|E0]].
     + unfold live_at in *. rewrite <- Ec. rewrite Hres. rewrite Ec. exact Hlive.
     + (* an own-page target is never shortened *)
       unfold taglink in Hl. destruct (negb (visible r (e_obj e)) && t_taglink_drops_hidden tbl); [discriminate|].
       inversion Hl; subst h. unfold shorten.
       rewrite (no_hash_no_prefix (e_ctx e) _ (own_url_no_hash _ Hval Eo)). rewrite andb_false_r. exact Hlive.
+    + (* page_url = '': never shortened *)
+      unfold taglink in Hl. destruct (negb (visible r (e_obj e)) && t_taglink_drops_hidden tbl); [discriminate|].
+      inversion Hl; subst h. unfold shorten. rewrite E0. cbn [is_nil negb andb]. exact Hlive.
 Qed.
 
 (* C11: member tables (own and package __init__), moduleIndex.html, the root list of index.html and objects.inv pick
@@ -738,9 +810,10 @@ Theorem links_live_contents : forall depth ns e h, wf r -> table_ok tbl = true -
 Proof.
   intros depth ns e h Hwf Ht Hf Hn1 Hn2 Hin Hc Hl.
   destruct (site_entries_inv quote tbl r depth ns e Hin) as [_ [_ [_ H4]]].
-  apply (link_live_of_reachable depth ns e h Hwf Ht Hf Hn1 Hn2 Hin (H4 Hwf Ht Hc)); [| |exact Hl];
+  apply (link_live_of_reachable depth ns e h Hwf Ht Hf Hn1 Hn2 Hin (H4 Hwf Ht Hc)); [| | |exact Hl];
     unfold contents_prod in Hc; cbn [existsb] in Hc;
-    repeat (apply orb_prop in Hc; destruct Hc as [Hc|Hc]; [apply N.eqb_eq in Hc; rewrite Hc; reflexivity|]); discriminate.
+    repeat (apply orb_prop in Hc; destruct Hc as [Hc|Hc];
+            [apply N.eqb_eq in Hc; rewrite Hc; first [reflexivity | intros Hx; discriminate Hx]|]); discriminate.
 Qed.
 
 (* C11 (guarded): when nothing registered is left unreachable (no superseded duplicates, no collision leftovers), every
@@ -751,14 +824,332 @@ Theorem links_live_guarded : forall depth ns e h, wf r -> table_ok tbl = true ->
   all_reachable r ->
   In e (site_entries quote tbl r depth ns) ->
   N.eqb (e_prod e) P_hierarchy = false -> N.eqb (e_prod e) P_childlist = false ->
+  (e_prod e = P_xref -> e_ctx e = e_page e \/ own_page r (e_obj e) = true) ->
   link_of quote tbl r e = Some h -> live_at quote tbl r (e_page e) h.
 Proof.
-  intros depth ns e h Hwf Ht Hf Hn1 Hn2 Hall Hin Hh Hc Hl.
+  intros depth ns e h Hwf Ht Hf Hn1 Hn2 Hall Hin Hh Hc Hx Hl.
   pose proof (no_link_targets_hidden depth ns e h Hwf Ht Hf Hin Hl) as Hv.
-  exact (link_live_of_reachable depth ns e h Hwf Ht Hf Hn1 Hn2 Hin (Hall _ (visible_valid r _ Hv)) Hh Hc Hl).
+  exact (link_live_of_reachable depth ns e h Hwf Ht Hf Hn1 Hn2 Hin (Hall _ (visible_valid r _ Hv)) Hh Hc Hx Hl).
 Qed.
 
 End Consequences.
+
+(* ================================================================== classIndex.html: every visible class has its anchor *)
+Section Hierarchy.
+Variable tbl : table.
+Variable r : registry.
+
+(* c is listed by ClassIndexPage at depth d below a root class *)
+Inductive hier : nat -> nat -> Prop :=
+| hier_root : forall c, In c (r_all r) -> is_root_class tbl r c = true -> hier 0 c
+| hier_sub : forall d b c, hier d b -> In c (subclasses_of r b) ->
+               keep_gen (t_subclasses_from tbl) r c (fullname r c) = true -> hier (S d) c.
+
+Lemma hier_in_index : forall d c, hier d c ->
+  exists root, In root (filter (is_root_class tbl r) (r_all r)) /\
+               forall fuel, d < fuel -> In c (subclasses_from fuel tbl r root).
+Proof.
+  intros d c H. induction H as [c Hall Hroot|d b c Hb IH Hsub Hk].
+  - exists c. split; [apply filter_In; auto|]. intros fuel Hf. destruct fuel as [|f]; [lia|]. cbn [subclasses_from]. now left.
+  - destruct IH as [root [Hroot Hin]]. exists root. split; [exact Hroot|]. intros fuel Hf.
+    destruct fuel as [|f]; [lia|]. assert (Hb' := Hin f ltac:(lia)). clear Hin.
+    revert Hb'. generalize root. clear Hroot root. revert f Hf.
+    (* c follows b wherever b is listed with one unit of fuel to spare *)
+    assert (Hgen : forall f x, In b (subclasses_from f tbl r x) -> In c (subclasses_from (S f) tbl r x)).
+    { induction f as [|f IHf]; intros x Hx; [contradiction|]. cbn [subclasses_from] in Hx. destruct Hx as [E|Hx].
+      - subst x. cbn [subclasses_from]. right. apply in_flat_map. exists c. split; [apply filter_In; auto|].
+        cbn [subclasses_from]. now left.
+      - apply in_flat_map in Hx. destruct Hx as [y [Hy Hx]]. specialize (IHf y Hx).
+        change (In c (x :: flat_map (subclasses_from (S f) tbl r)
+                       (filter (fun s => keep_gen (t_subclasses_from tbl) r s (fullname r s)) (subclasses_of r x)))).
+        right. apply in_flat_map. exists y. split; [exact Hy|exact IHf]. }
+    intros f Hf root Hb'. exact (Hgen f root Hb').
+Qed.
+
+Variable rank : nat -> nat.
+Hypothesis Hwc : wf_classes r rank.
+
+Lemma class_hier : forall n c, rank c < n -> valid r c -> is_class_kind (kind_of r c) = true -> visible r c = true ->
+  (forall a, base_star r a c -> plain_name r a) -> exists d, d <= rank c /\ hier d c.
+Proof.
+  induction n as [|n IH]; intros c Hn Hv Hk Hvis Hplain; [lia|].
+  destruct (Hplain c (bs_refl r c)) as [Hname Hfull].
+  assert (Hkeep : keep (t_rootclasses tbl) r c = true).
+  { unfold keep, keep_gen. rewrite Hvis, Hname. cbn. now rewrite !orb_true_r. }
+  destruct (is_nil (bases_of r c) || existsb (base_outside r) (bases_of r c)) eqn:Hroot.
+  - exists 0. split; [lia|]. apply hier_root; [exact (wc_registered r rank Hwc c Hv Hk)|].
+    unfold is_root_class. now rewrite Hk, Hkeep, Hroot.
+  - apply orb_false_elim in Hroot. destruct Hroot as [Hnil Hout].
+    destruct (bases_of r c) as [|b0 rest] eqn:Hb; [discriminate|].
+    assert (Hin0 : In b0 (bases_of r c)) by (rewrite Hb; now left).
+    assert (Hb0 : base_outside r b0 = false).
+    { destruct (base_outside r b0) eqn:E; [|reflexivity].
+      assert (existsb (base_outside r) (b0 :: rest) = true) by (apply existsb_exists; exists b0; split; [now left|exact E]).
+      congruence. }
+    destruct b0 as [b|]; [|discriminate]. cbn [base_outside] in Hb0. apply negb_false_iff in Hb0.
+    destruct (wc_subclass r rank Hwc c b Hin0) as [Hsub Hkb].
+    pose proof (wc_rank r rank Hwc c b Hin0) as Hrk.
+    destruct (IH b ltac:(lia) (visible_valid r b Hb0) Hkb Hb0) as [d [Hd Hh]].
+    { intros a Ha. apply Hplain. now apply bs_step with b. }
+    exists (S d). split; [lia|]. apply hier_sub with b; [exact Hh|exact Hsub|].
+    unfold keep_gen. rewrite Hvis, Hfull. cbn. now rewrite !orb_true_r.
+Qed.
+
+(* every visible class whose own and inherited names are plain is listed in classIndex.html, with its anchor *)
+Theorem class_in_index : forall quote c, valid r c -> is_class_kind (kind_of r c) = true -> visible r c = true ->
+  (forall a, base_star r a c -> plain_name r a) ->
+  In c (class_index tbl r) /\ In (f_classIndex, fullname r c) (site_anchors quote tbl r).
+Proof.
+  intros quote c Hv Hk Hvis Hplain.
+  destruct (class_hier (S (rank c)) c ltac:(lia) Hv Hk Hvis Hplain) as [d [Hd Hh]].
+  destruct (hier_in_index d c Hh) as [root [Hroot Hin]].
+  assert (Hci : In c (class_index tbl r)).
+  { unfold class_index. apply in_flat_map. exists root. split; [exact Hroot|]. apply Hin.
+    pose proof (wc_rank_bound r rank Hwc c). unfold fuel_of. lia. }
+  split; [exact Hci|]. unfold site_anchors. apply in_or_app. right.
+  apply in_map_iff. exists c. auto.
+Qed.
+
+End Hierarchy.
+
+(* ================================================================== where the raw links come from *)
+Section Origin.
+Variable quote : text -> text.
+Variable tbl : table.
+Variable r : registry.
+
+Lemma obj_content_prod : forall fuel depth level pg ctx s e, In e (obj_content fuel tbl r depth level pg ctx s) ->
+  e_prod e = P_sidebar_item \/ e_prod e = P_sidebar_inherited.
+Proof.
+  induction fuel as [|f IH]; intros depth level pg ctx s e Hin; [contradiction|].
+  cbn [obj_content] in Hin. apply in_app_or in Hin. destruct Hin as [Hin|Hin].
+  - apply in_flat_map in Hin. destruct Hin as [c [_ Hin]]. destruct Hin as [E|Hin]; [subst e; now left|].
+    destruct (own_page r c && Nat.ltb (S level) depth); [|contradiction]. exact (IH _ _ _ _ _ _ Hin).
+  - destruct (is_class_kind (kind_of r s)); [|contradiction].
+    apply in_map_iff in Hin. destruct Hin as [c [E _]]. subst e. now right.
+Qed.
+
+Lemma module_summary_prod : forall fuel m e, In e (module_summary quote fuel tbl r m) -> e_prod e = P_module_index.
+Proof.
+  induction fuel as [|f IH]; intros m e Hin; [contradiction|]. cbn [module_summary] in Hin.
+  destruct Hin as [E|Hin]; [now subst e|]. destruct (kind_of r m); try contradiction.
+  destruct (compact_listing tbl r (submodules_of tbl r m)).
+  - apply in_map_iff in Hin. destruct Hin as [c [E _]]. now subst e.
+  - apply in_flat_map in Hin. destruct Hin as [c [_ Hin]]. exact (IH c e Hin).
+Qed.
+
+Ltac other Hp := match goal with
+  | [ H : In _ (map _ _) |- _ ] => apply in_map_iff in H; let c := fresh "c" in let E := fresh "E" in
+                                   destruct H as [c [E _]]; subst; cbn in Hp; discriminate Hp
+  end.
+
+(* an entry of producer p0 in {member details, View In Hierarchy} comes from a written page *)
+Lemma raw_origin : forall depth ns e, In e (site_entries quote tbl r depth ns) ->
+  (e_prod e = P_childlist -> exists p, In p (written tbl r) /\ e_page e = url quote r p /\ In (e_obj e) (methods_of tbl r p)) /\
+  (e_prod e = P_hierarchy -> In (e_obj e) (written tbl r) /\ is_class_kind (kind_of r (e_obj e)) = true /\
+                            e_page e = url quote r (e_obj e)).
+Proof.
+  intros depth ns e Hin.
+  assert (Hgoal : forall p0, (p0 = P_childlist \/ p0 = P_hierarchy) -> e_prod e = p0 ->
+            (p0 = P_childlist -> exists p, In p (written tbl r) /\ e_page e = url quote r p /\ In (e_obj e) (methods_of tbl r p)) /\
+            (p0 = P_hierarchy -> In (e_obj e) (written tbl r) /\ is_class_kind (kind_of r (e_obj e)) = true /\
+                                 e_page e = url quote r (e_obj e))).
+  { intros p0 Hp0 Hp. unfold site_entries in Hin. apply in_app_or in Hin. destruct Hin as [Hin|Hin];
+      [apply in_app_or in Hin; destruct Hin as [Hin|Hin]|].
+    3: { exfalso. apply in_app_or in Hin. destruct Hin as [Hin|Hin].
+         - apply in_flat_map in Hin. destruct Hin as [p [_ Hin]]. unfold xref_entries in Hin.
+           apply in_app_or in Hin. destruct Hin as [Hin|Hin]; apply in_flat_map in Hin; destruct Hin as [i [_ Hin]];
+             destruct Hp0 as [Hp0|Hp0]; rewrite Hp0 in Hp; other Hp.
+         - unfold summary_xref_entries in Hin. apply in_app_or in Hin.
+           destruct Hin as [Hin|Hin]; apply in_flat_map in Hin; destruct Hin as [x [_ Hin]].
+           + destruct (text_eqb (e_ctx x) f_moduleIndex); [|contradiction]. destruct Hp0 as [Hp0|Hp0]; rewrite Hp0 in Hp; other Hp.
+           + destruct Hp0 as [Hp0|Hp0]; rewrite Hp0 in Hp; other Hp. }
+    - apply in_flat_map in Hin. destruct Hin as [p [Hpw Hin]]. unfold page_entries in Hin.
+      repeat (apply in_app_or in Hin; destruct Hin as [Hin|Hin]).
+      + exfalso. destruct Hp0 as [Hp0|Hp0]; rewrite Hp0 in Hp; other Hp.
+      + exfalso. destruct ns; [contradiction|]. apply in_app_or in Hin. destruct Hin as [Hin|Hin].
+        * destruct Hp0 as [Hp0|Hp0]; rewrite Hp0 in Hp; other Hp.
+        * apply in_flat_map in Hin. destruct Hin as [s [_ Hin]]. apply obj_content_prod in Hin.
+          destruct Hp0 as [Hp0|Hp0]; rewrite Hp0 in Hp; destruct Hin as [E|E]; rewrite E in Hp; discriminate Hp.
+      + exfalso. destruct Hp0 as [Hp0|Hp0]; rewrite Hp0 in Hp; other Hp.
+      + exfalso. destruct Hp0 as [Hp0|Hp0]; rewrite Hp0 in Hp; other Hp.
+      + exfalso. apply in_flat_map in Hin. destruct Hin as [x [_ Hin]]. destruct Hp0 as [Hp0|Hp0]; rewrite Hp0 in Hp; other Hp.
+      + exfalso. apply in_flat_map in Hin. destruct Hin as [x [_ Hin]]. destruct Hp0 as [Hp0|Hp0]; rewrite Hp0 in Hp; other Hp.
+      + apply in_map_iff in Hin. destruct Hin as [c [E Hc]]. subst e. cbn in Hp. cbn [e_page e_obj mk].
+        split; [intros _; exists p; auto|]. intros E. rewrite E in Hp. discriminate Hp.
+      + destruct (is_class_kind (kind_of r p)) eqn:Hk; [|contradiction].
+        repeat (apply in_app_or in Hin; destruct Hin as [Hin|Hin]).
+        * exfalso. destruct Hp0 as [Hp0|Hp0]; rewrite Hp0 in Hp; other Hp.
+        * exfalso. destruct Hp0 as [Hp0|Hp0]; rewrite Hp0 in Hp; other Hp.
+        * exfalso. apply in_flat_map in Hin. destruct Hin as [x [_ Hin]]. destruct Hp0 as [Hp0|Hp0]; rewrite Hp0 in Hp; other Hp.
+        * exfalso. apply in_flat_map in Hin. destruct Hin as [x [_ Hin]]. destruct Hp0 as [Hp0|Hp0]; rewrite Hp0 in Hp; other Hp.
+        * destruct Hin as [E|[]]. subst e. cbn in Hp. cbn [e_page e_obj mk].
+          split; [intros E; rewrite E in Hp; discriminate Hp|]. intros _. auto.
+    - exfalso. unfold summary_entries in Hin. repeat (apply in_app_or in Hin; destruct Hin as [Hin|Hin]).
+      + apply in_flat_map in Hin. destruct Hin as [m [_ Hin]]. apply module_summary_prod in Hin.
+        destruct Hp0 as [Hp0|Hp0]; rewrite Hp0 in Hp; rewrite Hin in Hp; discriminate Hp.
+      + destruct Hp0 as [Hp0|Hp0]; rewrite Hp0 in Hp; other Hp.
+      + destruct Hp0 as [Hp0|Hp0]; rewrite Hp0 in Hp; other Hp.
+      + destruct Hp0 as [Hp0|Hp0]; rewrite Hp0 in Hp; other Hp.
+      + destruct (multi_root r); [|contradiction]. destruct Hp0 as [Hp0|Hp0]; rewrite Hp0 in Hp; other Hp.
+      + destruct Hp0 as [Hp0|Hp0]; rewrite Hp0 in Hp; other Hp.
+      + destruct Hp0 as [Hp0|Hp0]; rewrite Hp0 in Hp; other Hp.
+      + destruct Hp0 as [Hp0|Hp0]; rewrite Hp0 in Hp; other Hp. }
+  split; intros Hp.
+  - exact (proj1 (Hgoal P_childlist (or_introl eq_refl) Hp) eq_refl).
+  - exact (proj2 (Hgoal P_hierarchy (or_intror eq_refl) Hp) eq_refl).
+Qed.
+
+(* the member self-links `#name` (headerLink of function-child.html / attribute-child.html) are live *)
+Theorem selflink_live : forall depth ns e h, In e (site_entries quote tbl r depth ns) -> e_prod e = P_childlist ->
+  link_of quote tbl r e = Some h -> live_at quote tbl r (e_page e) h.
+Proof.
+  intros depth ns e h Hin Hp Hl. destruct (proj1 (raw_origin depth ns e Hin) Hp) as [p [Hpw [Epg Hm]]].
+  unfold link_of in Hl. rewrite Hp in Hl. cbn in Hl. inversion Hl; subst h. clear Hl.
+  unfold live_at, resolve. cbn [split_hash]. rewrite N.eqb_refl. cbn [is_nil fst snd]. rewrite Epg. split.
+  - now apply written_file.
+  - intros a Ea. inversion Ea; subst a. exists (name_of r (e_obj e)). split; [|now left].
+    unfold site_anchors. apply in_or_app. left. apply in_flat_map. exists p. split; [exact Hpw|].
+    apply in_flat_map. exists (e_obj e). split; [exact Hm|]. cbn. auto.
+Qed.
+
+Lemma f_classIndex_no_hash : ~ In c_hash f_classIndex.
+Proof. cbn. unfold c_hash. intuition discriminate. Qed.
+
+(* "View In Hierarchy": classIndex.html#<fullName> is live for every class page whose names are plain *)
+Theorem hierarchy_live : forall rank depth ns e h, wf r -> table_ok tbl = true -> wf_classes r rank ->
+  In e (site_entries quote tbl r depth ns) -> e_prod e = P_hierarchy ->
+  (forall a, base_star r a (e_obj e) -> plain_name r a) ->
+  link_of quote tbl r e = Some h -> live_at quote tbl r (e_page e) h.
+Proof.
+  intros rank depth ns e h Hwf Ht Hwc Hin Hp Hplain Hl.
+  destruct (proj2 (raw_origin depth ns e Hin) Hp) as [Hpw [Hk _]].
+  destruct (table_ok_facts tbl Ht) as [_ [_ [_ [_ [_ [_ [_ [_ [_ [_ [H11 [_ [_ [_ [_ [_ [_ [H18 _]]]]]]]]]]]]]]]]]].
+  apply (written_iff tbl r Hwf H18) in Hpw. destruct Hpw as [_ [Hvis _]].
+  destruct (class_in_index tbl r rank Hwc quote (e_obj e) (visible_valid r _ Hvis) Hk Hvis Hplain) as [_ Ha].
+  assert (El : link_of quote tbl r e = Some (f_classIndex ++ c_hash :: fullname r (e_obj e))).
+  { unfold link_of. rewrite Hp. reflexivity. }
+  assert (Eh : h = f_classIndex ++ c_hash :: fullname r (e_obj e)) by congruence. subst h. clear Hl El.
+  unfold live_at. rewrite resolve_page_frag; [|exact f_classIndex_no_hash|discriminate]. cbn [fst snd]. split.
+  - unfold site_files, summary_files. apply in_or_app. right. cbn. auto.
+  - intros a Ea. inversion Ea; subst a. exists (fullname r (e_obj e)). split; [exact Ha|now left].
+Qed.
+
+(* every entry of the structural producers has a producer number below 30 (the cross-reference producers) *)
+Lemma structural_prod_range : forall depth ns e,
+  In e (flat_map (page_entries quote tbl r depth ns) (written tbl r) ++ summary_entries quote tbl r) ->
+  N.ltb (e_prod e) 30 = true.
+Proof.
+  intros depth ns e Hin.
+  assert (Leaf : forall (X : Type) (f : X -> entry) (l : list X), (forall x, N.ltb (e_prod (f x)) 30 = true) ->
+            In e (map f l) -> N.ltb (e_prod e) 30 = true).
+  { intros X f l Hf H. apply in_map_iff in H. destruct H as [x [E _]]. subst e. apply Hf. }
+  apply in_app_or in Hin. destruct Hin as [Hin|Hin].
+  - apply in_flat_map in Hin. destruct Hin as [p [_ Hin]]. unfold page_entries in Hin.
+    repeat (apply in_app_or in Hin; destruct Hin as [Hin|Hin]).
+    + eapply Leaf; [|exact Hin]; reflexivity.
+    + destruct ns; [contradiction|]. apply in_app_or in Hin. destruct Hin as [Hin|Hin].
+      * eapply Leaf; [|exact Hin]; reflexivity.
+      * apply in_flat_map in Hin. destruct Hin as [s [_ Hin]]. apply obj_content_prod in Hin.
+        destruct Hin as [E|E]; rewrite E; reflexivity.
+    + eapply Leaf; [|exact Hin]; reflexivity.
+    + eapply Leaf; [|exact Hin]; reflexivity.
+    + apply in_flat_map in Hin. destruct Hin as [x [_ Hin]]. eapply Leaf; [|exact Hin]; reflexivity.
+    + apply in_flat_map in Hin. destruct Hin as [x [_ Hin]]. eapply Leaf; [|exact Hin]; reflexivity.
+    + eapply Leaf; [|exact Hin]; reflexivity.
+    + destruct (is_class_kind (kind_of r p)); [|contradiction].
+      repeat (apply in_app_or in Hin; destruct Hin as [Hin|Hin]).
+      * eapply Leaf; [|exact Hin]; reflexivity.
+      * eapply Leaf; [|exact Hin]; reflexivity.
+      * apply in_flat_map in Hin. destruct Hin as [x [_ Hin]]. eapply Leaf; [|exact Hin]; reflexivity.
+      * apply in_flat_map in Hin. destruct Hin as [x [_ Hin]]. eapply Leaf; [|exact Hin]; reflexivity.
+      * destruct Hin as [E|[]]. subst e. reflexivity.
+  - unfold summary_entries in Hin. repeat (apply in_app_or in Hin; destruct Hin as [Hin|Hin]).
+    + apply in_flat_map in Hin. destruct Hin as [m [_ Hin]]. apply module_summary_prod in Hin. rewrite Hin. reflexivity.
+    + eapply Leaf; [|exact Hin]; reflexivity.
+    + eapply Leaf; [|exact Hin]; reflexivity.
+    + eapply Leaf; [|exact Hin]; reflexivity.
+    + destruct (multi_root r); [|contradiction]. eapply Leaf; [|exact Hin]; reflexivity.
+    + eapply Leaf; [|exact Hin]; reflexivity.
+    + eapply Leaf; [|exact Hin]; reflexivity.
+    + eapply Leaf; [|exact Hin]; reflexivity.
+Qed.
+
+(* where a docstring cross reference stands *)
+Theorem xref_origin : forall depth ns e, In e (site_entries quote tbl r depth ns) -> e_prod e = P_xref ->
+  exists p i, xref_from quote tbl r e p i.
+Proof.
+  intros depth ns e Hin Hp. unfold site_entries in Hin. apply in_app_or in Hin. destruct Hin as [Hin|Hin].
+  - apply structural_prod_range in Hin. rewrite Hp in Hin. discriminate Hin.
+  - apply in_app_or in Hin. destruct Hin as [Hin|Hin].
+    + apply in_flat_map in Hin. destruct Hin as [p [Hpw Hin]]. unfold xref_entries in Hin.
+      apply in_app_or in Hin. destruct Hin as [Hin|Hin]; apply in_flat_map in Hin; destruct Hin as [i [Hi Hin]];
+        apply in_map_iff in Hin; destruct Hin as [t [E Ht]]; subst e.
+      * exists p, i. unfold xref_from. cbn [e_page e_ctx e_obj mk]. repeat split; auto.
+        destruct Hi as [Hi|Hi]; auto.
+      * discriminate Hp.
+    + exfalso. unfold summary_xref_entries in Hin. apply in_app_or in Hin.
+      destruct Hin as [Hin|Hin]; apply in_flat_map in Hin; destruct Hin as [x [_ Hin]].
+      * destruct (text_eqb (e_ctx x) f_moduleIndex); [|contradiction].
+        apply in_map_iff in Hin. destruct Hin as [t [E _]]. subst e. discriminate Hp.
+      * apply in_map_iff in Hin. destruct Hin as [t [E _]]. subst e. discriminate Hp.
+Qed.
+
+(* when the docstring's source is documented on the same page, taglink is handed the page the link is rendered on *)
+Lemma xref_same_page_ctx : forall e p i, wf r -> l_visible (t_writer tbl) = true -> xref_from quote tbl r e p i ->
+  same_page_source r i -> docsource_of r i <> None -> e_ctx e = e_page e.
+Proof.
+  intros e p i Hwf Hw [Hpw [Hi [Epg [Ectx _]]]] Hs Hd. rewrite Ectx, Epg. unfold doc_ctx.
+  unfold same_page_source in Hs. destruct (docsource_of r i) as [s|]; [|congruence].
+  apply (written_iff tbl r Hwf Hw) in Hpw. destruct Hpw as [Hown [Hvis _]].
+  pose proof (visible_valid r p Hvis) as Hvp.
+  assert (Hpi : page_obj r i = Some p).
+  { destruct Hi as [E|Hm]; [subst i; exact (proj1 (own_url quote r p Hvp Hown))|].
+    unfold methods_of in Hm. apply filter_In in Hm. destruct Hm as [Hc Hk].
+    apply andb_prop in Hk. destruct Hk as [Hno _]. apply negb_true_iff in Hno.
+    destruct (wf_contents r Hwf p i Hc) as [Hvi Hpar]. destruct (valid_get r i Hvi) as [o Ho].
+    unfold page_obj, own_page, kind_of, parent_of in *. rewrite Ho in *. now rewrite Hno. }
+  rewrite Hs, Hpi. reflexivity.
+Qed.
+
+End Origin.
+
+(* ================================================================== docstring cross references *)
+Section Xref.
+Variable quote : text -> text.
+Variable tbl : table.
+Variable r : registry.
+Hypothesis quote_no_hash : forall t, ~ In c_hash (quote t).
+
+(* C11: a docstring cross reference (the resolver is an oracle: any registered object) is live on the page it is rendered
+   on, when the docstring's source is documented on that page -- or the target has a page of its own *)
+Theorem xref_links_live : forall depth ns e h p i, wf r -> table_ok tbl = true ->
+  t_taglink_drops_hidden tbl = true -> l_nospace (t_methods tbl) = false -> l_nospace (t_pkg_methods tbl) = false ->
+  In e (site_entries quote tbl r depth ns) -> e_prod e = P_xref -> xref_from quote tbl r e p i ->
+  (same_page_source r i \/ own_page r (e_obj e) = true) -> reachable r (e_obj e) ->
+  link_of quote tbl r e = Some h -> live_at quote tbl r (e_page e) h.
+Proof.
+  intros depth ns e h p i Hwf Ht Hf Hn1 Hn2 Hin Hp Hfrom Hguard Hreach Hl.
+  destruct (table_ok_facts tbl Ht) as [_ [_ [_ [_ [_ [_ [_ [_ [_ [_ [_ [_ [_ [_ [_ [_ [_ [H18 _]]]]]]]]]]]]]]]]]].
+  apply (link_live_of_reachable quote tbl r quote_no_hash depth ns e h Hwf Ht Hf Hn1 Hn2 Hin Hreach);
+    [rewrite Hp; reflexivity|rewrite Hp; reflexivity| |exact Hl].
+  intros _. destruct Hguard as [Hs|Ho]; [|now right].
+  destruct (docsource_of r i) eqn:Hd.
+  - left. apply (xref_same_page_ctx quote tbl r e p i Hwf H18 Hfrom Hs). congruence.
+  - left. destruct Hfrom as [_ [_ [Epg [Ectx _]]]]. rewrite Ectx, Epg. unfold doc_ctx. now rewrite Hd.
+Qed.
+
+End Xref.
+
+Lemma text_eqb_refl_main : text_eqb t_main t_main = true.
+Proof. reflexivity. Qed.
+
+(* ================================================================== Module.privacyClass: `__main__` *)
+Theorem main_module_private : forall r i o, get r i = Some o -> is_module_kind (o_kind o) = true -> o_name o = t_main ->
+  priv_of r i = PRIVATE.
+Proof.
+  intros r i o Hg Hk Hn. rewrite (priv_of_get r i o Hg). unfold eff_priv. rewrite Hk, Hn. now rewrite text_eqb_refl_main.
+Qed.
 
 (* ================================================================== single root *)
 Lemma text_eqb_refl : forall t, text_eqb t t = true.
@@ -805,6 +1196,16 @@ Proof. intros r p c H. unfold contents_of in H. destruct (get r p) eqn:E; [exact
 Lemma module_of_valid : forall r i m, module_of r i = Some m -> valid r i.
 Proof. intros r i m H. unfold module_of in H. destruct (get r i) eqn:E; [exact (get_valid r i _ E)|discriminate]. Qed.
 
+Lemma reach_up_sound : forall r fuel i, reach_up fuel r i = true -> reachable r i.
+Proof.
+  intros r fuel. induction fuel as [|f IH]; intros i H; [discriminate|]. cbn [reach_up] in H.
+  destruct (parent_of r i) as [p|].
+  - apply andb_prop in H. destruct H as [Hc Hp]. apply existsb_exists in Hc. destruct Hc as [x [Hx E]].
+    apply Nat.eqb_eq in E. subst x. destruct (IH p Hp) as [root [Hr Hd]]. exists root. split; [exact Hr|].
+    exact (desc_trans_child r root p i Hd Hx).
+  - apply existsb_exists in H. destruct H as [x [Hx E]]. apply Nat.eqb_eq in E. subst x. exists i. split; [exact Hx|apply desc_refl].
+Qed.
+
 Lemma wf_b_sound : forall r, wf_b r = true -> wf r.
 Proof.
   intros r H. unfold wf_b in H. cbv zeta in H.
@@ -823,5 +1224,8 @@ Proof.
     repeat split; [exact Hlt| |exact Hown]. destruct (parent_of r o); [discriminate|reflexivity].
   - intros c p Hp. specialize (H1 c (Hseq c (parent_of_valid r c p Hp))). rewrite Hp in H1.
     apply andb_prop in H1. tauto.
-  - intros c m Hm. specialize (H4 c (Hseq c (module_of_valid r c m Hm))). now rewrite Hm in H4.
+  - intros c m Hm. specialize (H4 c (Hseq c (module_of_valid r c m Hm))). rewrite Hm in H4.
+    apply andb_prop in H4. tauto.
+  - intros c m Hm. specialize (H4 c (Hseq c (module_of_valid r c m Hm))). rewrite Hm in H4.
+    apply andb_prop in H4. destruct H4 as [_ H4]. exact (reach_up_sound r _ m H4).
 Qed.
